@@ -34,6 +34,8 @@ var wrapperTemplates = []string{
 	"gin/gin-wrappers.tmpl", "fiber/fiber-middleware.tmpl", "iris/iris-middleware.tmpl",
 }
 
+var strictTemplates = []string{"strict/strict-http.tmpl", "strict/strict-gin.tmpl", "strict/strict-echo.tmpl", "strict/strict-fiber.tmpl", "strict/strict-iris.tmpl"}
+
 // tnode is a template term.
 type tnode struct {
 	Kind string // seg | if | range | seq | empty
@@ -58,6 +60,9 @@ func tseq(a, b *tnode) *tnode {
 var tempty = &tnode{Kind: "empty"}
 
 // goTokens reduces Go text to the model's tokens.
+// strictMode switches the tokeniser to the alphabet of the strict wrappers (GInvoke, GErrIf, GElse, GVisit).
+var strictMode bool
+
 func goTokens(src string) []string {
 	type tk struct {
 		tok  token.Token
@@ -137,6 +142,41 @@ func goTokens(src string) []string {
 			prevKind = token.RPAREN
 			continue
 		}
+		if strictMode {
+			switch {
+			case identAt(i, "response") && tokAt(i+1, token.COMMA) && identAt(i+2, "err") && tokAt(i+3, token.DEFINE) && identAt(i+4, "handler") && tokAt(i+5, token.LPAREN):
+				out = append(out, "GInvoke")
+				parenDepth++
+				i += 6
+				prevKind = token.LPAREN
+				continue
+			case t.tok == token.IF && identAt(i+1, "err") && tokAt(i+2, token.NEQ) && identAt(i+3, "nil") && tokAt(i+4, token.LBRACE):
+				out = append(out, "GErrIf")
+				braces = append(braces, true)
+				i += 5
+				prevKind = token.LBRACE
+				continue
+			case t.tok == token.RBRACE && tokAt(i+1, token.ELSE):
+				if n := len(braces); n > 0 {
+					braces = braces[:n-1]
+				}
+				out = append(out, "GElse")
+				i += 2
+				prevKind = token.ELSE
+				continue
+			case t.tok == token.PERIOD && i+2 < len(toks) && toks[i+1].tok == token.IDENT && strings.HasPrefix(toks[i+1].lit, "Visit") && strings.HasSuffix(toks[i+1].lit, "Response") && tokAt(i+2, token.LPAREN):
+				out = append(out, "GVisit")
+				i += 2
+				prevKind = token.IDENT
+				continue
+			case t.tok == token.IDENT && (strings.HasSuffix(t.lit, "ErrorHandlerFunc") || t.lit == "StopWithError") && tokAt(i+1, token.LPAREN):
+				end, _ := closeParen(i + 1)
+				out = append(out, "GReport")
+				i = end
+				prevKind = token.RPAREN
+				continue
+			}
+		}
 		switch {
 		case t.tok == token.SEMICOLON && t.lit == "\n":
 			// a header's body brace is on the line the header ends on (Go inserts a semicolon otherwise): headers that met
@@ -164,6 +204,8 @@ func goTokens(src string) []string {
 			block := true
 			if n := len(header); n > 0 && header[n-1] == parenDepth {
 				header = header[:n-1]
+			} else if prevKind == token.IDENT && i >= 2 && toks[i-2].tok == token.RPAREN {
+				// ") T {": the result type of a function whose signature began in another segment - a body, not a literal
 			} else if prevKind == token.IDENT || prevKind == token.RBRACK || prevKind == token.STRUCT || prevKind == token.INTERFACE {
 				// composite literals, and the member lists of struct / interface types (a parameter's type may be one)
 				block = false
@@ -337,6 +379,22 @@ func writeWrappersV(repo, outDir string) error {
 		fmt.Fprintf(&sb, "  (%s,\n   %s)%s\n", coqLitStr(rel), whole.coq(), sep)
 	}
 	sb.WriteString("].\n\nDefinition wrappers : list (string * tmpl) := map (fun p => (fst p, op_body_or_empty (snd p))) wrappers_whole.\n")
+	// the strict wrappers, read with the tokeniser's strict alphabet
+	sb.WriteString("\n(* the strict wrapper templates (strict alphabet: GInvoke, GErrIf, GElse, GVisit) *)\nDefinition strict_wrappers_whole : list (string * tmpl) := [\n")
+	strictMode = true
+	for i, rel := range strictTemplates {
+		whole, _, err := translateWrapper(repo, rel)
+		if err != nil || whole == nil {
+			whole = tempty
+		}
+		sep := ";"
+		if i == len(strictTemplates)-1 {
+			sep = ""
+		}
+		fmt.Fprintf(&sb, "  (%s,\n   %s)%s\n", coqLitStr(rel), whole.coq(), sep)
+	}
+	strictMode = false
+	sb.WriteString("].\n\nDefinition strict_wrappers : list (string * tmpl) := map (fun p => (fst p, op_body_or_empty (snd p))) strict_wrappers_whole.\n")
 	return os.WriteFile(filepath.Join(outDir, "Wrappers.v"), []byte(sb.String()), 0o644)
 }
 
@@ -424,43 +482,69 @@ func rangeElems(pipe string, data any) ([]any, error) {
 	return elems, nil
 }
 
+// evalCtx is a place a pipeline may have to be evaluated at: template variables are visible in every list below the
+// one that assigns them, so a pipeline that reads one is evaluated after the nodes preceding it in the innermost
+// enclosing list where that succeeds (with that list's dot).
+type evalCtx struct {
+	prefix string
+	data   any
+}
+
+func evalCondIn(pipe string, ctxs []evalCtx) (bool, error) {
+	var err error
+	for i := len(ctxs) - 1; i >= 0; i-- {
+		var v bool
+		v, err = evalCond(pipe, ctxs[i].prefix, ctxs[i].data)
+		if err == nil {
+			return v, nil
+		}
+		if !strings.Contains(pipe, "$") {
+			break
+		}
+	}
+	return false, err
+}
+
 // buildEnv evaluates every pipeline of the term under data.
-func buildEnv(n *tnode, data any, e *tenv) error {
+func buildEnv(n *tnode, data any, e *tenv) error { return buildEnvIn(n, data, e, nil) }
+
+func buildEnvIn(n *tnode, data any, e *tenv, outer []evalCtx) error {
 	if n == nil {
 		return nil
 	}
 	switch n.Kind {
 	case "seq":
-		if err := buildEnv(n.A, data, e); err != nil {
+		if err := buildEnvIn(n.A, data, e, outer); err != nil {
 			return err
 		}
-		return buildEnv(n.B, data, e)
+		return buildEnvIn(n.B, data, e, outer)
 	case "if":
-		v, err := evalCond(n.Pipe, n.Prefix, data)
+		here := append(append([]evalCtx{}, outer...), evalCtx{n.Prefix, data})
+		v, err := evalCondIn(n.Pipe, here)
 		if err != nil {
 			return fmt.Errorf("condition %q: %w", n.Pipe, err)
 		}
 		e.Conds[n.Pipe] = v
-		// both branches are evaluated under the same data (with changes dot, but no condition below a with reads it here)
-		if err := buildEnv(n.A, data, e); err != nil {
+		if err := buildEnvIn(n.A, data, e, here); err != nil {
 			return err
 		}
-		return buildEnv(n.B, data, e)
+		return buildEnvIn(n.B, data, e, here)
 	case "range":
 		elems, err := rangeElems(n.Pipe, data)
 		if err != nil {
 			return fmt.Errorf("range %q: %w", n.Pipe, err)
 		}
+		here := append(append([]evalCtx{}, outer...), evalCtx{n.Prefix, data})
 		var kids []*tenv
 		for _, el := range elems {
 			k := &tenv{Conds: map[string]bool{}, Ranges: map[string][]*tenv{}}
-			if err := buildEnv(n.A, el, k); err != nil {
+			if err := buildEnvIn(n.A, el, k, here); err != nil {
 				return err
 			}
 			kids = append(kids, k)
 		}
 		e.Ranges[n.Pipe] = kids
-		return buildEnv(n.B, data, e)
+		return buildEnvIn(n.B, data, e, here)
 	}
 	return nil
 }
@@ -523,6 +607,25 @@ func templateSpec(rng interface{ Intn(int) int }) []byte {
 			}
 		}
 		op := map[string]any{"operationId": fmt.Sprintf("op%d", i), "responses": map[string]any{"204": map[string]any{"description": "d"}}}
+		if bodyKind := rng.Intn(6); bodyKind > 0 && i > 0 {
+			obj := map[string]any{"type": "object", "properties": map[string]any{"a": map[string]any{"type": "string"}}}
+			content := map[string]any{}
+			switch bodyKind {
+			case 1:
+				content["application/json"] = map[string]any{"schema": obj}
+			case 2:
+				content["application/x-www-form-urlencoded"] = map[string]any{"schema": obj}
+			case 3:
+				content["text/plain"] = map[string]any{"schema": map[string]any{"type": "string"}}
+			case 4:
+				content["multipart/form-data"] = map[string]any{"schema": obj}
+			default:
+				content["application/json"] = map[string]any{"schema": obj}
+				content["text/plain"] = map[string]any{"schema": map[string]any{"type": "string"}}
+				content["application/octet-stream"] = map[string]any{"schema": map[string]any{"type": "string", "format": "binary"}}
+			}
+			op["requestBody"] = map[string]any{"content": content}
+		}
 		if len(params) > 0 {
 			op["parameters"] = params
 		}
@@ -544,13 +647,33 @@ func templateSpec(rng interface{ Intn(int) int }) []byte {
 // text of the real engine on concrete operations (read with the same tokeniser), and evaluates the three criteria's
 // statements on the real text as well.
 func runTemplateCorrespondence(r *Report, rng interface{ Intn(int) int }, nDocs int) {
-	cases := NewCases("cases_C06_templates", "From V Require Import Model.Tmpl Gen.Wrappers Corr.EvalTmpl.\nLocal Open Scope string_scope.", "nat * env * list gtok", "mismatches_template")
+	runTemplateCorrespondenceOf(r, rng, nDocs, false)
+}
+
+// runStrictTemplateCorrespondence: the same for the five strict wrapper templates, read with the strict alphabet.
+func runStrictTemplateCorrespondence(r *Report, rng interface{ Intn(int) int }, nDocs int) {
+	runTemplateCorrespondenceOf(r, rng, nDocs, true)
+}
+
+var strictFW = map[string]string{"strict/strict-http.tmpl": "chi", "strict/strict-gin.tmpl": "gin", "strict/strict-echo.tmpl": "echo", "strict/strict-fiber.tmpl": "fiber", "strict/strict-iris.tmpl": "iris"}
+
+func runTemplateCorrespondenceOf(r *Report, rng interface{ Intn(int) int }, nDocs int, strict bool) {
+	name, fn, templates := "cases_C06_templates", "mismatches_template", wrapperTemplates
+	if strict {
+		name, fn, templates = "cases_C12_templates", "mismatches_strict_template", strictTemplates
+		strictMode = true
+		defer func() { strictMode = false }()
+	}
+	cases := NewCases(name, "From V Require Import Model.Tmpl Gen.Wrappers Corr.EvalTmpl.\nLocal Open Scope string_scope.", "nat * env * list gtok", fn)
 	defer cases.WriteTo(r)
 	for d := 0; d < nDocs; d++ {
 		spec := templateSpec(rng)
-		for ti, rel := range wrapperTemplates {
+		for ti, rel := range templates {
 			fw := strings.SplitN(rel, "/", 2)[0]
-			cfg := codegen.Configuration{PackageName: "gen", Generate: fwGenerate(fw, codegen.GenerateOptions{Models: true})}
+			if strict {
+				fw = strictFW[rel]
+			}
+			cfg := codegen.Configuration{PackageName: "gen", Generate: fwGenerate(fw, codegen.GenerateOptions{Models: true, Strict: strict})}
 			ftl := d%2 == 1
 			cfg.Compatibility.ApplyChiMiddlewareFirstToLast = ftl
 			cfg.Compatibility.ApplyGorillaMiddlewareFirstToLast = ftl
@@ -598,6 +721,25 @@ func runTemplateCorrespondence(r *Report, rng interface{ Intn(int) int }, nDocs 
 			cases.Add(fmt.Sprintf("(%d, %s, [%s])", ti, env.coq(), strings.Join(toks, "; ")), replay)
 			r.Count("template/"+rel+"/"+string(spec)+fmt.Sprint(ftl), len(ops) > 1)
 			r.Dist["template_render_vs_engine"]++
+			if strict {
+				// the statement on the real text: a Visit call only after the chain was invoked and its error tested
+				invoked, tested := false, false
+				for _, t := range toks {
+					switch t {
+					case "GInvoke":
+						invoked, tested = true, false
+					case "GErrIf":
+						if invoked {
+							tested = true
+						}
+					case "GVisit":
+						if !invoked || !tested {
+							r.Violate("strict_wrapper_writes_response_without_testing_the_error", rel+": a Visit call that does not follow the test of the chain's error", replay)
+						}
+					}
+				}
+				continue
+			}
 			// the statements on the real text: after a report nothing but return; one handler call per operation
 			pending := false
 			for _, t := range toks {
